@@ -248,8 +248,6 @@ def finding_matches(kf, case, impl, model, oracle):
     """C04-1: over TCP the answering logic ends in SERVFAIL (CNAME chain too long / loop / unusable zone data)
     only after having written more than the UDP limit allows; over UDP the same request runs into the
     limit first and is answered with TC. Everything else about the pair must be as the model says."""
-    if kf.get("id") != "C04-1" or " ## " not in impl or impl != model.split(" | ")[0]:
-        pass
     if kf.get("id") != "C04-1" or " ## " not in impl:
         return False
     u, t = split_pair(impl)
